@@ -50,6 +50,46 @@ def describe(op):
             "instance J embedded schema-directedly (embed) and given to S.ParseAny; kaptinlin/jsonschema compiled from the emitted "
             "document validates J and the returned value. Grammar of S/J: harness/cmd/c07/ast.go")
 
+META_SCRIPT = r"""
+import sys, json
+from jsonschema import Draft202012Validator
+from jsonschema.exceptions import SchemaError
+bad = 0; n = 0
+for line in open(sys.argv[1]):
+    text, _, raw = line.rstrip("\n").partition("\t")
+    n += 1
+    try:
+        Draft202012Validator.check_schema(json.loads(raw))
+    except SchemaError as e:
+        bad += 1
+        print("BAD\t%s\t%s\t%s" % (text, raw, str(e.message)[:200]))
+print("CHECKED\t%d\t%d" % (n, bad))
+"""
+
+def metaschema_check(res):
+    """thorough tier: every emitted document must validate against the Draft 2020-12 metaschema (Python jsonschema)."""
+    import os, shutil
+    d = os.path.join(C.BUILD, "run", "C07-meta-%d" % os.getpid())
+    shutil.rmtree(d, ignore_errors=True); os.makedirs(d)
+    env = C.goenv(); env["C07_RAWDOCS"] = os.path.join(d, "docs.tsv")
+    rc, out = C.run([C.harness_bin("C07"), "-seed", str(res.seed), "-tier", "quick", "-out", d], env=env, timeout=3600)
+    if rc != 0:
+        C.tie_broken(res, "metaschema C07/harness", out[-2000:]); return
+    script = os.path.join(d, "meta.py"); open(script, "w").write(META_SCRIPT)
+    rc, out = C.run(["python3-vt", script, env["C07_RAWDOCS"]], timeout=3600)
+    lines = out.strip().split("\n")
+    summary = [l for l in lines if l.startswith("CHECKED")]
+    if rc != 0 or not summary:
+        C.tie_broken(res, "metaschema C07/python-jsonschema", out[-2000:]); shutil.rmtree(d, ignore_errors=True); return
+    _, n, bad = summary[0].split("\t")
+    res.coverage["metaschema_documents_checked"] = int(n)
+    for l in lines:
+        if l.startswith("BAD"):
+            _, text, raw, msg = (l.split("\t") + ["", "", ""])[:4]
+            res.violation("doc-metaschema", "property C07: the emitted document is not a valid Draft 2020-12 schema\n  schema: %s\n  document: %s\n  metaschema error: %s\n" % (text, raw, msg))
+            break
+    shutil.rmtree(d, ignore_errors=True)
+
 def run(res):
     ok, detail = C.prove(res, MODULES, THEOREMS)
     if not ok:
@@ -80,6 +120,8 @@ def run(res):
         "wrong kinds, non-ASCII strings. impl observation = (Parse verdict, independent validator on returned value, independent validator on input). "
         "distinct = distinct op lines; histogram = node kinds, checks and verdict triples.")
     res.coverage["parse_panics_counted_as_reject"] = stats.get("parse_panics", 0)
+    if res.tier == "thorough":
+        metaschema_check(res)
     res.assumptions += [
         "jsValid is Draft 2020-12 for the emitted keyword set (cross-checked case by case against kaptinlin/jsonschema run on the REAL document)",
         "schema-directed embedding: an integral JSON number at an integer-schema position is that Go integer type, otherwise float64; within one union/xor/intersection all numeric leaves have one Go kind",
